@@ -268,3 +268,58 @@ Qed.
 Definition coverage_ok (names : list string) : bool := list_eqb String.eqb names seven.
 Lemma coverage_ok_sound names : coverage_ok names = true -> names = seven.
 Proof. apply (list_eqb_eq String.eqb String.eqb_eq). Qed.
+
+(* ---------------------------------------------------------------- no false alarm (partial completeness)
+   Eight of the twelve clause checks are *equivalent* to their part of [C20_statement]: on tables for which
+   the statement holds these checks cannot fail.  (The remaining four -- CNamed, CStackStride, CStackBase,
+   CSpPreserved -- compare dumped query results with the table as well; their converse is open.) *)
+Definition iff_clauses : list clause :=
+  [CDescr; CLifted; CStackOps; CArgs; CRet; CRetAddr; CDisjoint; CClasses].
+
+Lemma forallb_intro {A} (f : A -> bool) l : (forall x, In x l -> f x = true) -> forallb f l = true.
+Proof. intros H. apply forallb_forall. exact H. Qed.
+
+Theorem clause_complete_partial (a : abi) (t : dump) (k : clause) :
+  C20_statement a t -> In k iff_clauses -> clause_ok a t k = true.
+Proof.
+  intros St Hin.
+  destruct St as [Hend Hword Hsp [Helf Hld] [Hspt Hsps] [Hne Haw] Hprobe Hvoc [Hso Hsow] _ Hargs _ Hret Hra _
+                  Hdis _ [Hpre Htr]].
+  assert (Eb : forall e, endian_eqb e e = true) by (intros e; apply endian_eqb_eq; reflexivity).
+  assert (Rb : forall r, reg_eqb r r = true) by (intros r; apply reg_eqb_eq; reflexivity).
+  cbn in Hin.
+  destruct Hin as [<-|[<-|[<-|[<-|[<-|[<-|[<-|[<-|[]]]]]]]]]; cbn [clause_ok].
+  - (* CDescr *)
+    rewrite Hend, Hword, Hsp, Helf, Hld. cbn [fst snd]. rewrite Hword.
+    rewrite Eb, Z.eqb_refl, Rb, Z.eqb_refl, String.eqb_refl, Hend, Eb. reflexivity.
+  - (* CLifted *)
+    rewrite (proj2 (mem_reg_In _ _) Hspt), (proj2 (mem_reg_In _ _) Hsps), Hprobe.
+    rewrite (proj2 (probe_eqb_eq _ _) eq_refl).
+    rewrite (forallb_intro _ _ (fun w Hw => proj2 (Z.eqb_eq _ _) (Haw w Hw))).
+    rewrite forallb_intro.
+    + destruct (d_addr_widths t); [congruence|reflexivity].
+    + intros r Hr. destruct (Hvoc r Hr) as [H|[H|H]].
+      * rewrite (proj2 (mem_reg_In _ _) H). reflexivity.
+      * rewrite (proj2 (mem_reg_In _ _) H). apply orb_true_iff; left; apply orb_true_r.
+      * rewrite H. apply orb_true_r.
+  - (* CStackOps *)
+    rewrite forallb_intro.
+    + destruct (d_stack_ops t); [congruence|reflexivity].
+    + intros [i wr] Ho. apply mem_reg_In. cbn [snd]. exact (Hsow i wr Ho).
+  - (* CArgs *)
+    rewrite Hargs, Hword. apply (list_eqb_eq reg_eqb reg_eqb_eq). reflexivity.
+  - (* CRet *)
+    rewrite Hret, Hword. apply Rb.
+  - (* CRetAddr *)
+    destruct (a_retaddr a) as [n|o]; rewrite Hra; cbn [aloc_matches]; [rewrite Hword; apply Rb|apply Z.eqb_refl].
+  - (* CDisjoint *)
+    apply forallb_intro. intros [n w] Hp. cbn [fst].
+    destruct (name_in n (trashed (d_cc t))) eqn:E; [|reflexivity].
+    apply name_in_In in E. destruct E as [w' Hw']. exfalso. exact (Hdis n w w' Hp Hw').
+  - (* CClasses *)
+    rewrite !forallb_intro; [reflexivity| |].
+    + intros r Hr. destruct (Htr r Hr) as [H|H]; apply (proj2 (mem_str_In _ _)) in H; rewrite H;
+        [reflexivity|apply orb_true_r].
+    + intros r Hr. destruct (Hpre r Hr) as [H|H]; apply (proj2 (mem_str_In _ _)) in H; rewrite H;
+        [reflexivity|apply orb_true_r].
+Qed.
